@@ -1,11 +1,13 @@
 package main
 
 // Driver "fees" (property C07): generated Ethereum (legacy / access-list /
-// dynamic-fee, single and multi-message) and Cosmos transactions through the
-// real BaseApp.DeliverTx of a real application, with the fee-market parameters
-// swept.  Observed: accept/reject class, response gas wanted/used, per-message
-// gas used, sender net payment (value moved excluded), fee-collector delta, and
-// the verdict of the same ante chain in CheckTx mode.
+// dynamic-fee, single and multi-message, the messages of one transaction signed
+// by up to three different accounts in every interleaving) and Cosmos
+// transactions through the real BaseApp.DeliverTx of a real application, with
+// the fee-market parameters swept.  Observed: accept/reject class, response gas
+// wanted/used, per-message gas used, net payment of EVERY signer account (value
+// moved excluded), fee-collector delta, and the verdict of the same ante chain
+// in CheckTx mode.
 //
 // Every case starts from the same committed base state: the uncommitted deliver
 // state is dropped (see feeResetDeliver) and BeginBlock opens a fresh one.
@@ -17,6 +19,7 @@ package main
 // composed the way ApplyTransaction composes them.
 
 import (
+	"crypto/ecdsa"
 	"encoding/json"
 	"fmt"
 	"math/big"
@@ -78,6 +81,7 @@ type feeMsg struct {
 	Slot  int    `json:"slot,omitempty"`  // first storage slot touched by set/clear/revert
 	N     int    `json:"n,omitempty"`     // number of slots
 	AL    int    `json:"al,omitempty"`    // access-list entries (types 1, 2)
+	From  int    `json:"from,omitempty"`  // signer of the message: 0 = A (also the signer of Cosmos transactions), 1 = B, 2 = C
 }
 
 type feeTx struct {
@@ -98,7 +102,8 @@ type feeParams struct {
 
 type feeInput struct {
 	Params feeParams `json:"params"`
-	Bal    string    `json:"bal"`           // sender's aISLM balance before the first transaction
+	Bal    string    `json:"bal"`            // aISLM balance of signer A before the first transaction
+	Bals   []string  `json:"bals,omitempty"` // aISLM balances of signers B, C (absent: none)
 	Pre    []int     `json:"pre,omitempty"` // storage slots of the script contract that are non-zero beforehand
 	Txs    []feeTx   `json:"txs"`
 }
@@ -106,7 +111,11 @@ type feeInput struct {
 // ---------------------------------------------------------------- environment
 var (
 	feeKey, _   = crypto.HexToECDSA("3a1076bf45ab87712ad64ccb3b10217737f7faacbf2872e88fdd9a537d8fe266")
+	feeKeyB, _  = crypto.HexToECDSA("4b2187c056bc98823be75ddc4c21328848f8fbbdc03983f9a0eeab648e9fe377")
+	feeKeyC, _  = crypto.HexToECDSA("5c3298d167cda9934cf86eed5d3243995a09fccecd14a40ab1ffbc759fa0f488")
+	feeKeys     = []*ecdsa.PrivateKey{feeKey, feeKeyB, feeKeyC}
 	feeSender   = crypto.PubkeyToAddress(feeKey.PublicKey)
+	feeSigners  = []common.Address{feeSender, crypto.PubkeyToAddress(feeKeyB.PublicKey), crypto.PubkeyToAddress(feeKeyC.PublicKey)}
 	feeSink     = common.HexToAddress("0x5100000000000000000000000000000000000051")
 	feeContract = common.HexToAddress("0xC700000000000000000000000000000000000007")
 	feeColl     = authtypes.NewModuleAddress(authtypes.FeeCollectorName)
@@ -153,6 +162,12 @@ func feeBaseEnv() *feeEnv {
 	if err := testutil.FundAccount(ctx, a.BankKeeper, sdk.AccAddress(feeSender.Bytes()),
 		sdk.NewCoins(sdk.NewCoin("stake", big24), sdk.NewCoin("uatom", big24))); err != nil {
 		panic(err)
+	}
+	// signers B and C exist as accounts (a non-EVM coin each); their aISLM balance is part of the input
+	for _, sg := range feeSigners[1:] {
+		if err := testutil.FundAccount(ctx, a.BankKeeper, sdk.AccAddress(sg.Bytes()), sdk.NewCoins(sdk.NewCoin("stake", sdkmath.NewInt(1)))); err != nil {
+			panic(err)
+		}
 	}
 	a.EndBlock(abci.RequestEndBlock{Height: 1})
 	a.Commit()
@@ -222,10 +237,15 @@ func (e *feeEnv) setup(ctx sdk.Context, in feeInput) error {
 	if err := e.App.FeeMarketKeeper.SetParams(ctx, p); err != nil {
 		return err
 	}
-	if b := bigOf(in.Bal); b.Sign() > 0 {
-		if err := testutil.FundAccount(ctx, e.App.BankKeeper, sdk.AccAddress(feeSender.Bytes()),
-			sdk.NewCoins(sdk.NewCoin(utils.BaseDenom, sdkmath.NewIntFromBigInt(b)))); err != nil {
-			return err
+	if len(in.Bals) > len(feeSigners)-1 {
+		return fmt.Errorf("bals: at most %d entries", len(feeSigners)-1)
+	}
+	for i, bs := range append([]string{in.Bal}, in.Bals...) {
+		if b := bigOf(bs); b.Sign() > 0 {
+			if err := testutil.FundAccount(ctx, e.App.BankKeeper, sdk.AccAddress(feeSigners[i].Bytes()),
+				sdk.NewCoins(sdk.NewCoin(utils.BaseDenom, sdkmath.NewIntFromBigInt(b)))); err != nil {
+				return err
+			}
 		}
 	}
 	for _, s := range in.Pre {
@@ -299,7 +319,7 @@ func (m feeMsg) ethTx(chain *big.Int, nonce uint64) *ethtypes.Transaction {
 	default:
 		inner = &ethtypes.DynamicFeeTx{ChainID: chain, Nonce: nonce, GasFeeCap: bigOf(m.Price), GasTipCap: bigOf(m.Tip), Gas: m.Gas, To: to, Value: val, Data: data, AccessList: m.accessList()}
 	}
-	stx, err := ethtypes.SignTx(ethtypes.NewTx(inner), ethtypes.LatestSignerForChainID(chain), feeKey)
+	stx, err := ethtypes.SignTx(ethtypes.NewTx(inner), ethtypes.LatestSignerForChainID(chain), feeKeys[m.From])
 	if err != nil {
 		panic(err)
 	}
@@ -310,15 +330,24 @@ func (m feeMsg) ethTx(chain *big.Int, nonce uint64) *ethtypes.Transaction {
 // clients do (extension option, fee = sum of fee-cap x gas, gas = sum of limits).
 func (e *feeEnv) buildEth(ctx sdk.Context, t feeTx) (sdk.Tx, []*ethtypes.Transaction, []common.Address, error) {
 	chain := e.App.EvmKeeper.ChainID()
-	nonce := e.App.EvmKeeper.GetNonce(ctx, feeSender)
+	// every signer's messages carry its consecutive nonces
+	nonces := make([]uint64, len(feeSigners))
+	for i, a := range feeSigners {
+		nonces[i] = e.App.EvmKeeper.GetNonce(ctx, a)
+	}
 	b := e.TxCfg.NewTxBuilder()
 	msgs := []sdk.Msg{}
 	etxs := []*ethtypes.Transaction{}
 	recips := []common.Address{}
 	fee := sdkmath.ZeroInt()
 	gas := uint64(0)
-	for i, m := range t.Msgs {
-		stx := m.ethTx(chain, nonce+uint64(i))
+	for _, m := range t.Msgs {
+		if m.From < 0 || m.From >= len(feeSigners) {
+			return nil, nil, nil, fmt.Errorf("from: no signer %d", m.From)
+		}
+		nonce := nonces[m.From]
+		nonces[m.From]++
+		stx := m.ethTx(chain, nonce)
 		msg := &evmtypes.MsgEthereumTx{}
 		if err := msg.FromEthereumTx(stx); err != nil {
 			return nil, nil, nil, err
@@ -330,7 +359,7 @@ func (e *feeEnv) buildEth(ctx sdk.Context, t feeTx) (sdk.Tx, []*ethtypes.Transac
 		if stx.To() != nil {
 			recips = append(recips, *stx.To())
 		} else {
-			recips = append(recips, crypto.CreateAddress(feeSender, nonce+uint64(i)))
+			recips = append(recips, crypto.CreateAddress(feeSigners[m.From], nonce))
 		}
 	}
 	if err := b.SetMsgs(msgs...); err != nil {
@@ -536,10 +565,10 @@ type feeObs struct {
 	Prio    int64    `json:"prio"`  // priority the ante chain sets in CheckTx mode (0 when it refuses)
 	Wanted  uint64   `json:"wanted"`
 	Used    uint64   `json:"used"`
-	Net     string   `json:"net"`  // sender's balance decrease minus the value that reached the recipients
+	Nets    []string `json:"nets"` // per signer A, B, C: balance decrease minus the value its messages moved to the recipients
 	Coll    string   `json:"coll"` // fee collector increase
 	MsgUsed []uint64 `json:"msg_used"`
-	Bal0    string   `json:"bal0"`
+	Bals0   []string `json:"bals0"` // per signer: balance before the transaction
 	Coll0   string   `json:"coll0"`
 	Moved   string   `json:"moved"`
 	Evm     []feeEvm `json:"evm,omitempty"`
@@ -619,40 +648,55 @@ func (e *feeEnv) runTx(t feeTx) (o feeObs) {
 	}
 	uniq := map[common.Address]bool{}
 	rs := []common.Address{}
+	isSigner := map[common.Address]bool{}
+	for _, a := range feeSigners {
+		isSigner[a] = true
+	}
 	for _, r := range recips {
-		if !uniq[r] && r != feeSender {
+		if !uniq[r] && !isSigner[r] {
 			uniq[r] = true
 			rs = append(rs, r)
 		}
 	}
-	sender := feeSender.Bytes()
-	b0, c0 := e.bal(ctx, sender), e.bal(ctx, feeColl)
+	ns := len(feeSigners)
+	b0, b1 := make([]*big.Int, ns), make([]*big.Int, ns)
+	seq0, seq1 := make([]uint64, ns), make([]uint64, ns)
+	for i, a := range feeSigners {
+		b0[i] = e.bal(ctx, a.Bytes())
+		seq0[i], _ = e.App.AccountKeeper.GetSequence(ctx, sdk.AccAddress(a.Bytes()))
+	}
+	c0 := e.bal(ctx, feeColl)
 	r0 := big.NewInt(0)
 	for _, r := range rs {
 		r0.Add(r0, e.bal(ctx, r.Bytes()))
 	}
-	seq0, _ := e.App.AccountKeeper.GetSequence(ctx, sdk.AccAddress(sender))
 	res := e.App.BaseApp.DeliverTx(abci.RequestDeliverTx{Tx: bz})
 	ctx = e.dctx()
-	b1, c1 := e.bal(ctx, sender), e.bal(ctx, feeColl)
+	seqMoved, balMoved := false, false
+	for i, a := range feeSigners {
+		b1[i] = e.bal(ctx, a.Bytes())
+		seq1[i], _ = e.App.AccountKeeper.GetSequence(ctx, sdk.AccAddress(a.Bytes()))
+		seqMoved = seqMoved || seq1[i] != seq0[i]
+		balMoved = balMoved || b1[i].Cmp(b0[i]) != 0
+	}
+	c1 := e.bal(ctx, feeColl)
 	r1 := big.NewInt(0)
 	for _, r := range rs {
 		r1.Add(r1, e.bal(ctx, r.Bytes()))
 	}
-	seq1, _ := e.App.AccountKeeper.GetSequence(ctx, sdk.AccAddress(sender))
 	moved := new(big.Int).Sub(r1, r0)
-	net := new(big.Int).Sub(b0, b1)
-	net.Sub(net, moved)
-	o.Bal0, o.Moved, o.Net, o.Coll = b0.String(), moved.String(), net.String(), new(big.Int).Sub(c1, c0).String()
-	o.Coll0 = c0.String()
+	o.Moved, o.Coll, o.Coll0 = moved.String(), new(big.Int).Sub(c1, c0).String(), c0.String()
 	o.RawCode = res.Code
-	// the ante chain passed iff its effects were written (sequence bumped, fee moved)
-	antePassed := seq1 != seq0 || b1.Cmp(b0) != 0 || c1.Cmp(c0) != 0
+	// the ante chain passed iff its effects were written: it ends with the increment
+	// of the sequence of every signer (EthIncrementSenderSequenceDecorator /
+	// IncrementSequenceDecorator).  A transaction it refused must have charged nobody
+	// (checked by the oracle on the balances recorded here).
+	antePassed := seqMoved
 	switch {
 	case res.Code == 0:
 		o.Code = 0
 		if !antePassed {
-			o.Stray = "code 0 but the sender's sequence did not move"
+			o.Stray = "code 0 but no signer's sequence moved"
 		}
 	case antePassed:
 		o.Code = 4
@@ -662,8 +706,16 @@ func (e *feeEnv) runTx(t feeTx) (o feeObs) {
 		o.Cat = codeCat(res.Codespace, res.Code)
 		o.Log = feeShort(res.Log)
 	}
+	_ = balMoved
 	if antePassed && t.Route == "eth" {
 		o.Wanted, o.Used = uint64(res.GasWanted), uint64(res.GasUsed)
+	}
+	// value moved, attributed to the signers: the value of every message the EVM
+	// executed without a vm error (a failed message's transfer is reverted); the
+	// Cosmos bank send is signer A's
+	movedBy := make([]*big.Int, ns)
+	for i := range movedBy {
+		movedBy[i] = big.NewInt(0)
 	}
 	o.MsgUsed = []uint64{}
 	if res.Code == 0 && t.Route == "eth" {
@@ -671,15 +723,32 @@ func (e *feeEnv) runTx(t feeTx) (o feeObs) {
 		if err := e.App.AppCodec().Unmarshal(res.Data, &td); err != nil {
 			o.Stray = "response data: " + err.Error()
 		} else {
-			for _, mr := range td.MsgResponses {
+			for i, mr := range td.MsgResponses {
 				var r evmtypes.MsgEthereumTxResponse
 				if err := proto.Unmarshal(mr.Value, &r); err != nil {
 					o.Stray = "response data: " + err.Error()
 					break
 				}
 				o.MsgUsed = append(o.MsgUsed, r.GasUsed)
+				if i < len(t.Msgs) && !r.Failed() {
+					movedBy[t.Msgs[i].From].Add(movedBy[t.Msgs[i].From], bigOf(t.Msgs[i].Value))
+				}
 			}
 		}
+	}
+	if t.Route != "eth" {
+		movedBy[0].Set(moved)
+	}
+	sumMoved := big.NewInt(0)
+	for i := range feeSigners {
+		sumMoved.Add(sumMoved, movedBy[i])
+		net := new(big.Int).Sub(b0[i], b1[i])
+		net.Sub(net, movedBy[i])
+		o.Nets = append(o.Nets, net.String())
+		o.Bals0 = append(o.Bals0, b0[i].String())
+	}
+	if sumMoved.Cmp(moved) != 0 && o.Stray == "" {
+		o.Stray = fmt.Sprintf("value accounting: the recipients received %s, the successful messages sent %s", moved, sumMoved)
 	}
 	return o
 }
@@ -714,8 +783,20 @@ func feeOracle(p feeParams, t feeTx, o feeObs, strict bool) (msg string, belowFl
 	mgp, mult := bigOf(p.Mgp), bigOf(p.Mult)
 	base := p.effBase()
 	accepted := o.Code == 0 || o.Code == 4
-	net, coll := bigOf(o.Net), bigOf(o.Coll)
+	if len(o.Nets) != len(feeSigners) {
+		return "harness: no per-signer figures", false
+	}
+	net, coll := bigOf(o.Nets[0]), bigOf(o.Coll)
 	if !accepted {
+		// all-or-nothing: a transaction the ante chain refused charges nobody
+		for i, n := range o.Nets {
+			if bigOf(n).Sign() != 0 {
+				return fmt.Sprintf("refused transaction, yet signer %d paid %s", i, n), false
+			}
+		}
+		if coll.Sign() != 0 {
+			return fmt.Sprintf("refused transaction, yet the fee collector's balance moved by %s", coll), false
+		}
 		return "", false
 	}
 	if t.Route == "cosmos" {
@@ -729,6 +810,11 @@ func feeOracle(p feeParams, t feeTx, o feeObs, strict bool) (msg string, belowFl
 		floor := new(big.Int).Mul(mgp, new(big.Int).SetUint64(t.Gas)) // in 10^-18
 		if new(big.Int).Mul(fee, big1e18).Cmp(floor) < 0 {
 			return fmt.Sprintf("cosmos tx accepted with fee %s aISLM < gas %d x minGasPrice %s e-18", fee, t.Gas, mgp), false
+		}
+		for s := 1; s < len(o.Nets); s++ {
+			if bigOf(o.Nets[s]).Sign() != 0 {
+				return fmt.Sprintf("cosmos tx of signer 0, yet signer %d paid %s", s, o.Nets[s]), false
+			}
 		}
 		paidBelow := new(big.Int).Mul(net, big1e18).Cmp(floor) < 0
 		if paidBelow && (strict || new(big.Int).Mul(base, big1e18).Cmp(mgp) >= 0) {
@@ -760,6 +846,10 @@ func feeOracle(p feeParams, t feeTx, o feeObs, strict bool) (msg string, belowFl
 		return "harness: executed eth tx without per-message gas figures", false
 	}
 	want := big.NewInt(0)
+	wantBy := make([]*big.Int, len(feeSigners))
+	for i := range wantBy {
+		wantBy[i] = big.NewInt(0)
+	}
 	sumUsed := uint64(0)
 	for i, m := range t.Msgs {
 		ev := o.Evm[i]
@@ -786,10 +876,14 @@ func feeOracle(p feeParams, t feeTx, o feeObs, strict bool) (msg string, belowFl
 			return fmt.Sprintf("msg %d: gasUsed %d exceeds the gas limit %d", i, o.MsgUsed[i], m.Gas), false
 		}
 		want.Add(want, new(big.Int).Mul(used, m.effPrice(base)))
+		wantBy[m.From].Add(wantBy[m.From], new(big.Int).Mul(used, m.effPrice(base)))
 		sumUsed += o.MsgUsed[i]
 	}
-	if net.Cmp(want) != 0 {
-		return fmt.Sprintf("sender's net payment %s != sum gasUsed x effectiveGasPrice = %s", net, want), false
+	// every signer pays for its own messages, nobody else pays anything
+	for s := range feeSigners {
+		if n := bigOf(o.Nets[s]); n.Cmp(wantBy[s]) != 0 {
+			return fmt.Sprintf("signer %d: net payment %s != sum of gasUsed x effectiveGasPrice over its own messages = %s", s, n, wantBy[s]), false
+		}
 	}
 	if coll.Cmp(want) != 0 {
 		return fmt.Sprintf("fee collector received %s != sum gasUsed x effectiveGasPrice = %s", coll, want), false
@@ -847,7 +941,11 @@ func (o feeObs) coq() string {
 	for _, u := range o.MsgUsed {
 		us = append(us, coqZu(u))
 	}
-	return fmt.Sprintf("(mkobs %d%%N %d%%N %s %s %s %s %s %s)", o.Code, o.Check, coqZi(o.Prio), coqZu(o.Wanted), coqZu(o.Used), feeCoqZs(o.Net), feeCoqZs(o.Coll), coqList(us))
+	ns := []string{}
+	for _, n := range o.Nets {
+		ns = append(ns, feeCoqZs(n))
+	}
+	return fmt.Sprintf("(mkobs %d%%N %d%%N %s %s %s %s %s %s)", o.Code, o.Check, coqZi(o.Prio), coqZu(o.Wanted), coqZu(o.Used), coqList(ns), feeCoqZs(o.Coll), coqList(us))
 }
 
 func (p feeParams) coq() string {
@@ -880,7 +978,16 @@ func feesRunCase(id string, in feeInput, strict bool) Case {
 	for i, t := range in.Txs {
 		o := e.runTx(t)
 		obs = append(obs, o)
-		steps = append(steps, fmt.Sprintf("(%s, %s, %s, %s)", feeCoqZs(o.Bal0), feeCoqZs(o.Coll0), t.coq(o), o.coq()))
+		bs, sg := []string{}, []string{}
+		for _, b := range o.Bals0 {
+			bs = append(bs, feeCoqZs(b))
+		}
+		if t.Route == "eth" {
+			for _, m := range t.Msgs {
+				sg = append(sg, fmt.Sprintf("%d%%N", m.From))
+			}
+		}
+		steps = append(steps, fmt.Sprintf("(%s, %s, %s, %s, %s)", coqList(bs), feeCoqZs(o.Coll0), coqList(sg), t.coq(o), o.coq()))
 		m, b := feeOracle(in.Params, t, o, strict)
 		if m != "" && msgAll == "" {
 			msgAll = fmt.Sprintf("tx %d: %s", i, m)
@@ -895,6 +1002,19 @@ func feesRunCase(id string, in feeInput, strict bool) Case {
 		}
 		if t.Route == "eth" {
 			tags[fmt.Sprintf("msgs:%d", len(t.Msgs))] = true
+			// who signs which message: canonical pattern (first signer seen = A, ...)
+			pat, seen := "", map[int]byte{}
+			for _, m := range t.Msgs {
+				if _, ok := seen[m.From]; !ok {
+					seen[m.From] = byte('A' + len(seen))
+				}
+				pat += string(seen[m.From])
+			}
+			tags[fmt.Sprintf("signers:%d", len(seen))] = true
+			if len(seen) > 1 {
+				tags["sig:"+pat] = true
+				tags[fmt.Sprintf("sig-outcome:code%d", o.Code)] = true
+			}
 			for j, m := range t.Msgs {
 				tags[fmt.Sprintf("type:%d", m.Type)] = true
 				tags["kind:"+m.Kind] = true
